@@ -109,6 +109,12 @@ def _k2off7(seed):
     return Driver("k2off7", [np.round(two_regime_series(9, 1, 3), 2) + 3e7], W=2, K=2, beta=1.0, m=2)
 
 
+@driver("long24k")
+def _long24k(seed):
+    # 24000 stacked points (one label is < 0.005 % of them): for the long control skeleton of C09
+    return Driver("long24k", [two_regime_series(24000, 1, 17, split=12000)], W=1, K=2, beta=1.0, m=2)
+
+
 @driver("long6k")
 def _long6k(seed):
     # clusters of more than 4096 windows (block-wise processing, 12-bit counters): 6200 stacked points
